@@ -61,6 +61,8 @@ pub enum VecSpec {
     Gen { profile: Profile, seed: u64 },
     /// explicit finite values
     Lit(Vec<f32>),
+    /// a tweak of another vector: "same" | "flip_zero_signs" | "ulp" | "nan_payload" | "negate"
+    Derived { base: Box<VecSpec>, tweak: String, seed: u64 },
 }
 
 pub fn gen_vector(spec: &VecSpec, dim: usize, data_seed: u64) -> Vec<f32> {
@@ -68,6 +70,39 @@ pub fn gen_vector(spec: &VecSpec, dim: usize, data_seed: u64) -> Vec<f32> {
         VecSpec::Lit(v) => {
             let mut v = v.clone();
             v.resize(dim, 0.0);
+            v
+        }
+        VecSpec::Derived { base, tweak, seed } => {
+            let mut v = gen_vector(base, dim, data_seed);
+            let mut r = Rng::new(*seed);
+            match tweak.as_str() {
+                "flip_zero_signs" => {
+                    for x in v.iter_mut() {
+                        if *x == 0.0 {
+                            *x = -*x;
+                        }
+                    }
+                }
+                "ulp" => {
+                    if !v.is_empty() {
+                        let i = r.below(v.len() as u64) as usize;
+                        v[i] = f32::from_bits(v[i].to_bits() ^ 1);
+                    }
+                }
+                "nan_payload" => {
+                    for x in v.iter_mut() {
+                        if x.is_nan() {
+                            *x = f32::from_bits(x.to_bits() ^ (1 + (r.next() as u32 & 0xffff)));
+                        }
+                    }
+                }
+                "negate" => {
+                    for x in v.iter_mut() {
+                        *x = -*x;
+                    }
+                }
+                _ => {}
+            }
             v
         }
         VecSpec::Gen { profile, seed } => {
@@ -342,6 +377,7 @@ impl GenKnobs {
 struct Shadow {
     live: std::collections::BTreeSet<u32>,
     metric: Metric,
+    last: std::collections::BTreeMap<u32, VecSpec>,
 }
 
 /// Generate a history plan (engine H) for `focus` from `seed`.
@@ -431,7 +467,7 @@ pub fn gen_history(seed: u64, focus: &str, thorough: bool) -> Plan {
     }
 
     let mut shadows: Vec<Shadow> =
-        indexes.iter().map(|ic| Shadow { live: Default::default(), metric: ic.metric }).collect();
+        indexes.iter().map(|ic| Shadow { live: Default::default(), metric: ic.metric, last: Default::default() }).collect();
     let mut committed: Vec<(std::collections::BTreeSet<u32>, Metric)> =
         shadows.iter().map(|s| (s.live.clone(), s.metric)).collect();
 
@@ -496,6 +532,7 @@ pub fn gen_history(seed: u64, focus: &str, thorough: bool) -> Plan {
                         // whether it is accepted depends on the whole database: the executor's model decides
                         sh.live.insert(id); // over-approximation, harmless for generation
                     } else {
+                        sh.last.insert(id, vspec.clone());
                         steps.push(Step::Add { ix, id, v: vspec });
                         sh.live.insert(id);
                     }
@@ -511,10 +548,19 @@ pub fn gen_history(seed: u64, focus: &str, thorough: bool) -> Plan {
                     }
                 }
                 _ => {
-                    // overwrite
+                    // overwrite: with a fresh vector, or with a tweak of what the item holds
                     if !sh.live.is_empty() {
                         let id = *sh.live.iter().nth(r.below(sh.live.len() as u64) as usize).unwrap();
-                        steps.push(Step::Add { ix, id, v: vspec });
+                        let v = match sh.last.get(&id) {
+                            Some(base) if r.chance(1, 2) && !matches!(base, VecSpec::Derived { .. }) => VecSpec::Derived {
+                                base: Box::new(base.clone()),
+                                tweak: r.pick(&["same", "flip_zero_signs", "flip_zero_signs", "ulp", "nan_payload", "negate"]).to_string(),
+                                seed: r.next(),
+                            },
+                            _ => vspec,
+                        };
+                        sh.last.insert(id, v.clone());
+                        steps.push(Step::Add { ix, id, v });
                     }
                 }
             }
